@@ -87,7 +87,8 @@ pub enum RCmd {
     Close { k: String, cancel: oneshot::Receiver<()> },
     /// Receive one whole message following the documented protocol: recv_any, and after
     /// `Received::Chunks` recv_chunk until it returns None or an error.
-    RecvMsg { k: String, side: usize, name: String, cancel: oneshot::Receiver<()> },
+    /// `drain: false` = answer `Received::Chunks` by returning (the next receive call skips the rest of the message)
+    RecvMsg { k: String, side: usize, name: String, drain: bool, cancel: oneshot::Receiver<()> },
     SetMaxData { n: usize },
     Probe { k: String },
     /// `Receiver::forward` into the sender that arrives on `tx`; both ports are dropped when it returns,
@@ -330,7 +331,7 @@ fn receiver_actor(
                         _ = cancel => cancelled(&pending, &k),
                     }
                 }
-                RCmd::RecvMsg { k, side, name, cancel } => {
+                RCmd::RecvMsg { k, side, name, drain, cancel } => {
                     pending.lock().unwrap().remove(&k);
                     let fut = async {
                         let k0 = format!("{k}.0");
@@ -341,7 +342,7 @@ fn receiver_actor(
                         match r {
                             Ok(Some(Received::Data(d))) => done(&pending, &k0, format!("data {}", hex(&Vec::<u8>::from(d)))),
                             Ok(Some(Received::Chunks)) => {
-                                chunked = true;
+                                chunked = drain;
                                 done(&pending, &k0, "chunks".into())
                             }
                             Ok(Some(Received::Requests(reqs))) => {
@@ -1126,7 +1127,8 @@ impl World {
                     guard += 1;
                 }
             }
-            "recvmsg" => {
+            "recvmsg" | "recvskip" => {
+                let drain = t[0] == "recvmsg";
                 let (k, side, name) = (t[1].to_string(), side_idx(t[2]), t[3].to_string());
                 let key = format!("{}@{}", t[3], t[2]);
                 let Some(r) = self.receivers.get(&key).cloned() else {
@@ -1134,7 +1136,7 @@ impl World {
                     return true;
                 };
                 let cancel = self.begin_on(&format!("{key}:rx"), &k);
-                let _ = r.send(RCmd::RecvMsg { k, side, name, cancel });
+                let _ = r.send(RCmd::RecvMsg { k, side, name, drain, cancel });
             }
             "recv" | "recvany" | "recvchunk" | "close" | "setmaxdata" => {
                 let (k, key) = (t[1].to_string(), format!("{}@{}", t[3], t[2]));
